@@ -50,6 +50,7 @@ type Env struct {
 	backedge bool
 	bound    map[string]bool // names bound by quantifiers / let (not rebound inside old())
 	own      bool            // environment of the function under translation (not of a callee's contract)
+	visComp  string   // visited-set component of the map range loop whose invariant is being read ("" if none)
 	recName  string   // name of the pure function being defined (for self calls)
 	recComps []string // its state parameters
 	depth    int
@@ -602,7 +603,7 @@ func (e *Env) index(n *EIndex) (*SVal, error) {
 }
 
 var builtinSpecFuncs = map[string]bool{"len": true, "cap": true, "old": true, "be16": true, "be32": true, "be64": true, "bytesEq": true,
-	"crc32c": true, "dom": true, "isnil": true, "arrOf": true, "offOf": true, "sameArr": true, "typeIs": true, "allocated": true, "fresh": true, "update": true, "str": true, "boxed": true, "unbox": true, "isa": true, "apply": true, "itoa": true}
+	"crc32c": true, "dom": true, "isnil": true, "arrOf": true, "offOf": true, "sameArr": true, "typeIs": true, "allocated": true, "fresh": true, "update": true, "str": true, "boxed": true, "unbox": true, "isa": true, "apply": true, "itoa": true, "visited": true}
 
 func (e *Env) call(n *ECall) (*SVal, error) {
 	c := e.c
@@ -738,6 +739,19 @@ func (e *Env) call(n *ECall) (*SVal, error) {
 			return nil, err
 		}
 		return &SVal{sOff(a.T), tyInt}, nil
+	case "visited":
+		// visited(k): the map range loop this invariant belongs to has already produced the key k
+		if e.visComp == "" {
+			return nil, e.errf("visited() is only available in the invariants of a range loop over a map")
+		}
+		if len(n.Args) != 1 {
+			return nil, e.errf("visited takes one argument")
+		}
+		a, err := e.expr(n.Args[0])
+		if err != nil {
+			return nil, err
+		}
+		return &SVal{sel(c.get(e.st, e.visComp), a.T), tyBool}, nil
 	case "allocated":
 		a, err := e.expr(n.Args[0])
 		if err != nil {
@@ -1128,6 +1142,15 @@ func (t *Tr) exitEnv(r *retInfo) *Env {
 func (t *Tr) loopEnv(li *loopInfo, st *State) *Env {
 	e := t.baseEnv(st)
 	h := li.head
+	for _, in := range h.Instrs {
+		if nx, ok := in.(*ssa.Next); ok && !nx.IsString {
+			if rng, ok := nx.Iter.(*ssa.Range); ok {
+				if vc := compVisited(t.fn, rng); t.c.compSort[vc] != "" {
+					e.visComp = vc
+				}
+			}
+		}
+	}
 	// walk the dominators of the header in order: loop-carried variables of enclosing/earlier
 	// loops (phis named after the variable), address-taken locals, and definitions/uses (DebugRef)
 	for _, b := range t.order {
